@@ -804,3 +804,33 @@ func checkLockOrder(c *Ctx, r *Report, rule string) {
 		r.OK(rule, "acquisition order of the library's mutexes", "-", fmt.Sprintf("%d mutex field(s), %d nested acquisition(s) found; the order is acyclic", len(locks), len(es)))
 	}
 }
+
+// ---- no unchecked type assertion ------------------------------------------------------------------------------------
+
+// checkNoUncheckedAssert: every type assertion of the library is of the comma-ok form (or part of a type switch):
+// an interface value whose dynamic type is not the expected one yields an error, not a panic. Values that reach these
+// assertions come from the caller (options, platform definitions decoded from YAML) and are not under the library's
+// control.
+func checkNoUncheckedAssert(c *Ctx, r *Report, rule string) {
+	n, bad := 0, 0
+	for _, fn := range c.LibFns {
+		if fn.Pkg == nil || strings.HasPrefix(c.Pos(fn.Pos()), "util/testclean.go") || fn.Synthetic != "" {
+			continue
+		}
+		allInstrs(fn, func(in ssa.Instruction) {
+			ta, ok := in.(*ssa.TypeAssert)
+			if !ok {
+				return
+			}
+			n++
+			if ta.CommaOk {
+				return
+			}
+			bad++
+			r.Bad(rule, fmt.Sprintf("%s assertion#%d to %s", shortFn(fn), bad, types.TypeString(ta.AssertedType, func(p *types.Package) string { return p.Name() })), c.Pos(ta.Pos()), "a single-value type assertion: when the interface value holds anything else (a YAML scalar of another kind, an option applied to another object, a transport of another type) the library panics instead of returning an error")
+		})
+	}
+	if bad == 0 {
+		r.OK(rule, "type assertions of the library", "-", fmt.Sprintf("%d assertion(s), all comma-ok or in a type switch", n))
+	}
+}
